@@ -22,22 +22,24 @@ pub struct Block<'c> {
 
 impl<'c> Block<'c> {
     pub fn decode(&self) -> io::Result<Cow<'c, [u8]>> {
-        use crate::codecs::{aac, bzip2, fqzcomp, gzip, lzma, name_tokenizer, rans_4x8, rans_nx16};
+        use crate::codecs::{
+            aac, alloc_zeroed, bzip2, fqzcomp, gzip, lzma, name_tokenizer, rans_4x8, rans_nx16,
+        };
 
         match self.compression_method {
             CompressionMethod::None => Ok(Cow::from(self.src)),
             CompressionMethod::Gzip => {
-                let mut dst = vec![0; self.uncompressed_size];
+                let mut dst = alloc_zeroed(self.uncompressed_size)?;
                 gzip::decode(self.src, &mut dst)?;
                 Ok(Cow::from(dst))
             }
             CompressionMethod::Bzip2 => {
-                let mut dst = vec![0; self.uncompressed_size];
+                let mut dst = alloc_zeroed(self.uncompressed_size)?;
                 bzip2::decode(self.src, &mut dst)?;
                 Ok(Cow::from(dst))
             }
             CompressionMethod::Lzma => {
-                let mut dst = vec![0; self.uncompressed_size];
+                let mut dst = alloc_zeroed(self.uncompressed_size)?;
                 lzma::decode(self.src, &mut dst)?;
                 Ok(Cow::from(dst))
             }
